@@ -101,60 +101,7 @@ func runC11(c *Ctx) {
 		c.R.Unk(rule, "chpool.Client", cfg, "", "no disposer call in the methods of chpool.Client (anchor lost)")
 	}
 
-	// ---- C11.slab
-	rule = "C11.slab"
-	c.R.Rule(rule, "handle structs handed out by getConn are never recycled: the per-connection slab is refilled with a fresh make, and otherwise only shrinks; re-slicing it back into its capacity would hand a new holder the very struct an earlier holder still has, so the earlier holder's stale Release acts on the new holder's resource pointer")
-	func() {
-		gc := p.Method(core.PkgPool, "connResource", "getConn")
-		if gc == nil {
-			c.R.Unk(rule, "chpool.(*connResource).getConn", cfg, "", "anchor lost")
-			return
-		}
-		n := 0
-		bad := false
-		for _, b := range gc.Blocks {
-			for _, in := range b.Instrs {
-				st, ok := in.(*ssa.Store)
-				if !ok {
-					continue
-				}
-				fa, ok := st.Addr.(*ssa.FieldAddr)
-				if !ok || fieldNameOnly(fa.X.Type(), fa.Field) != "clients" {
-					continue
-				}
-				n++
-				switch v := st.Val.(type) {
-				case *ssa.MakeSlice:
-				case *ssa.Slice:
-					if _, fresh := v.X.(*ssa.Alloc); fresh {
-						continue // make with constant size: slice of a fresh array
-					}
-					// must shrink: high = len(x) - k
-					shr := false
-					if bo, ok := v.High.(*ssa.BinOp); ok && bo.Op == token.SUB {
-						if cl, ok := bo.X.(*ssa.Call); ok {
-							if bi, ok := cl.Call.Value.(*ssa.Builtin); ok && bi.Name() == "len" {
-								shr = true
-							}
-						}
-					}
-					if !shr {
-						bad = true
-						c.R.Bad(rule, core.FuncName(gc), cfg, p.Pos(st.Pos()), "the handle slab is re-sliced to something other than len-1: already handed-out handle structs are reused")
-					}
-				default:
-					bad = true
-					c.R.Bad(rule, core.FuncName(gc), cfg, p.Pos(st.Pos()), "the handle slab is assigned an unrecognised value")
-				}
-			}
-		}
-		if n == 0 {
-			c.R.Unk(rule, core.FuncName(gc), cfg, p.Pos(gc.Pos()), "no slab assignment found")
-		} else if !bad {
-			c.R.Ok(rule, core.FuncName(gc), cfg, p.Pos(gc.Pos()), "fresh make when empty, otherwise pop from the end")
-		}
-	}()
-
+	ruleSlab(c, p, "C11.slab")
 	// ---- C11.release
 	rule = "C11.release"
 	c.R.Rule(rule, "return-to-idle (Resource.Release) in chpool.Client.Release is reachable only through the false edge of client.IsClosed() and the false edge of the `age > MaxConnLifetime` comparison; the other edges destroy the resource; and (*ch.Client).Close marks the client closed on every path on which it attempts to close the connection, whatever conn.Close returns")
@@ -553,4 +500,89 @@ func fnObj(fn *ssa.Function) *types.Func {
 	}
 	f, _ := fn.Object().(*types.Func)
 	return f
+}
+
+// ruleSlab (C11.slab / C12.slab): pooled handles are never shared between holders.
+func ruleSlab(c *Ctx, p *core.Program, rule string) {
+	cfg := p.Cfg.Name
+	c.R.Rule(rule, "handle structs handed out by getConn are never recycled: the per-connection slab is refilled with a fresh make, and otherwise only shrinks; re-slicing it back into its capacity would hand a new holder the very struct an earlier holder still has, so the earlier holder's stale Release acts on the new holder's resource pointer")
+	func() {
+		gc := p.Method(core.PkgPool, "connResource", "getConn")
+		if gc == nil {
+			c.R.Unk(rule, "chpool.(*connResource).getConn", cfg, "", "anchor lost")
+			return
+		}
+		// where does the handle that getConn returns live?
+		slabField := ""
+		for _, b := range gc.Blocks {
+			ret, ok := b.Instrs[len(b.Instrs)-1].(*ssa.Return)
+			if !ok || len(ret.Results) != 1 {
+				continue
+			}
+			switch h := ret.Results[0].(type) {
+			case *ssa.Alloc:
+				// a fresh handle per acquisition
+			case *ssa.IndexAddr:
+				if ld, ok := h.X.(*ssa.UnOp); ok {
+					if fa, ok := ld.X.(*ssa.FieldAddr); ok {
+						slabField = fieldNameOnly(fa.X.Type(), fa.Field)
+					}
+				}
+			case *ssa.FieldAddr:
+				c.R.Bad(rule, core.FuncName(gc), cfg, p.Pos(ret.Pos()), "getConn hands out the address of a field of the connection object ("+fieldNameOnly(h.X.Type(), h.Field)+"): every holder of this connection, past and present, has the same handle struct, so a stale Release by an earlier holder acts on the current holder's resource (the connection goes back to the pool while in use)")
+				return
+			default:
+				c.R.Unk(rule, core.FuncName(gc), cfg, p.Pos(ret.Pos()), "origin of the returned handle not recognised")
+				return
+			}
+		}
+		if slabField == "" {
+			c.R.Ok(rule, core.FuncName(gc), cfg, p.Pos(gc.Pos()), "a fresh handle is allocated per acquisition")
+			return
+		}
+		n := 0
+		bad := false
+		for _, b := range gc.Blocks {
+			for _, in := range b.Instrs {
+				st, ok := in.(*ssa.Store)
+				if !ok {
+					continue
+				}
+				fa, ok := st.Addr.(*ssa.FieldAddr)
+				if !ok || fieldNameOnly(fa.X.Type(), fa.Field) != slabField {
+					continue
+				}
+				n++
+				switch v := st.Val.(type) {
+				case *ssa.MakeSlice:
+				case *ssa.Slice:
+					if _, fresh := v.X.(*ssa.Alloc); fresh {
+						continue // make with constant size: slice of a fresh array
+					}
+					// must shrink: high = len(x) - k
+					shr := false
+					if bo, ok := v.High.(*ssa.BinOp); ok && bo.Op == token.SUB {
+						if cl, ok := bo.X.(*ssa.Call); ok {
+							if bi, ok := cl.Call.Value.(*ssa.Builtin); ok && bi.Name() == "len" {
+								shr = true
+							}
+						}
+					}
+					if !shr {
+						bad = true
+						c.R.Bad(rule, core.FuncName(gc), cfg, p.Pos(st.Pos()), "the handle slab is re-sliced to something other than len-1: already handed-out handle structs are reused")
+					}
+				default:
+					bad = true
+					c.R.Bad(rule, core.FuncName(gc), cfg, p.Pos(st.Pos()), "the handle slab is assigned an unrecognised value")
+				}
+			}
+		}
+		if n == 0 {
+			c.R.Unk(rule, core.FuncName(gc), cfg, p.Pos(gc.Pos()), "no slab assignment found")
+		} else if !bad {
+			c.R.Ok(rule, core.FuncName(gc), cfg, p.Pos(gc.Pos()), "fresh make when empty, otherwise pop from the end")
+		}
+	}()
+
 }
